@@ -68,15 +68,18 @@ func (f *FileEnt) link_child(name string, c *FileEnt) error {
 // Opposite of link_child
 // Caller is responsible for calling c.decref *after* this
 // routine returns successfully (error == nil).
-func (f *FileEnt) unlink_child(name string) error {
+// unlink_child removes the link name -> c from f.  It fails if name is no
+// longer linked to c (c has already been removed, and the name may by now
+// belong to a different file).
+func (f *FileEnt) unlink_child(name string, c *FileEnt) error {
 	if f.children == nil {
 		return errors.New("not a directory.")
 	}
 
 	f.Lock()
 	defer f.Unlock()
-	_, found := f.children[name]
-	if !found {
+	cur, found := f.children[name]
+	if !found || cur != c {
 		return errors.New("not found")
 	}
 	delete(f.children, name)
